@@ -31,10 +31,11 @@ import (
 )
 
 var (
-	srvAddr   *net.UDPAddr
-	scionAddr *net.UDPAddr
-	socks     []*net.UDPConn
-	seq       uint32
+	srvAddr     *net.UDPAddr
+	srvAddrNoTS *net.UDPAddr
+	scionAddr   *net.UDPAddr
+	socks       []*net.UDPConn
+	seq         uint32
 )
 
 func TestMain(m *testing.M) {
@@ -43,6 +44,13 @@ func TestMain(m *testing.M) {
 	prometheus.DefaultRegisterer = prometheus.NewRegistry()
 	srvAddr = netlab.UDPAddr(netlab.Addr(0), 12360)
 	server.StartIPServer(context.Background(), log, srvAddr, 0, nil)
+	// a second IP listener bound with an interface zone: hardware transmit timestamps only are requested, the
+	// loopback device has none, so this listener can never read the kernel transmit timestamp of a reply
+	prometheus.DefaultRegisterer = prometheus.NewRegistry()
+	srvAddrNoTS = netlab.UDPAddr(netlab.Addr(7), 12362)
+	srvAddrNoTS.Zone = "lo"
+	server.StartIPServer(context.Background(), log, srvAddrNoTS, 0, nil)
+	prometheus.DefaultRegisterer = prometheus.NewRegistry()
 	scionAddr = netlab.UDPAddr(netlab.Addr(6), 12361)
 	server.StartSCIONServer(context.Background(), log, "", scionAddr, 0, nil)
 	for i := 0; i < 6; i++ {
@@ -296,6 +304,62 @@ func listenerBody(t *testing.T, eps []endp, rec *ev.Recorder, nq, nth int) {
 		rec.Eval(nInter > 0, ev.Hash(fmt.Sprint(log)), func() any { return log[:min(len(log), 10)] })
 		if n > 1 {
 			rec.Count(int64(n - 1))
+		}
+	})
+}
+
+// "An exchange for which none [no kernel transmit timestamp] could be read is dropped from the record rather than
+// served": a listener that cannot read transmit timestamps at all never has anything to serve in interleaved mode.
+var recNoTS = ev.New("c06/listener-without-kernel-timestamps", "rapid: 2..12 requests from 1..2 sockets to a real IP listener bound with an interface zone (hardware transmit timestamps only, none on loopback: every read of the kernel transmit timestamp fails); every request after the first cites the receive timestamp of an earlier reply to the same sender, in interleaved form. Oracle: every request is answered, and always in basic mode (origin = the request's transmit field, transmit timestamp later than the receive timestamp): the cited exchanges were dropped from the record. One evaluation = one request. Non-trivial: request citing an earlier reply; distinct by (position, cited)")
+
+func TestPropListenerNoKernelTimestamps(t *testing.T) {
+	vt.Check(t, 60, 600, func(t *rapid.T) {
+		n := rapid.IntRange(2, 12).Draw(t, "n")
+		var prev [2][]ntp.Packet
+		for i := 0; i < n; i++ {
+			si := rapid.IntRange(0, 1).Draw(t, "socket")
+			sock := socks[si] // two sockets on two addresses: two clients
+			seq++
+			var req ntp.Packet
+			req.SetVersion(4)
+			req.SetMode(ntp.ModeClient)
+			req.TransmitTime = ntp.Time64{Seconds: 0xa1000000 + seq, Fraction: seq * 7919}
+			cites := len(prev[si]) > 0 && rapid.IntRange(0, 4).Draw(t, "cite") > 0
+			if cites {
+				c := rapid.SampledFrom(prev[si]).Draw(t, "cited")
+				req.OriginTime = c.ReceiveTime
+				req.ReceiveTime = ntp.Time64{Seconds: 0xb1000000 + seq, Fraction: seq}
+			}
+			b := make([]byte, 48)
+			ntp.EncodePacket(&b, &req)
+			var rsp ntp.Packet
+			got := false
+			buf := make([]byte, 2048)
+			for attempt := 0; attempt < 4 && !got; attempt++ {
+				sock.WriteToUDP(b, &net.UDPAddr{IP: srvAddrNoTS.IP, Port: srvAddrNoTS.Port})
+				sock.SetReadDeadline(time.Now().Add(400 * time.Millisecond))
+				for {
+					k, _, err := sock.ReadFromUDP(buf)
+					if err != nil {
+						break
+					}
+					if ntp.DecodePacket(&rsp, buf[:k]) == nil && (rsp.OriginTime == req.TransmitTime || rsp.OriginTime == req.ReceiveTime && cites) {
+						got = true
+						break
+					}
+				}
+			}
+			if !got {
+				t.Fatalf("request %d was not answered by the listener without kernel timestamps", i)
+			}
+			if rsp.OriginTime != req.TransmitTime {
+				t.Fatalf("request %d cites the receive timestamp of an earlier reply whose transmit timestamp could not be read: it was answered in interleaved mode (transmit %v) instead of basic mode - the exchange was not dropped from the record", i, rsp.TransmitTime)
+			}
+			if !rsp.TransmitTime.After(rsp.ReceiveTime) {
+				t.Fatalf("request %d: basic reply with transmit %v not after receive %v", i, rsp.TransmitTime, rsp.ReceiveTime)
+			}
+			prev[si] = append(prev[si], rsp)
+			recNoTS.Eval(cites, ev.Hash(i, cites, si), nil)
 		}
 	})
 }
